@@ -303,4 +303,205 @@ theorem mixed_interface_conforming_collapse_partial (m : Mesh P) (n0 n1 : Nat) (
             rw [← hx1]; exact GuardsRules.nd_mem (by rw [hw.pri c hc]; exact pri_face_bound f hf x hx)⟩
       exact collapse_matched hne hk1 (hnb k hk) (h k hk) (by simpa using hst)
 
+/-- **2-D split**: on a planar grid (triangles + quadrilaterals, boundary edges) no side of a quadrilateral gets a
+    hanging node: a side that had a triangle side or boundary edge on it still has after a successful guarded split.
+    (The 2-D swap is not proved at this level: it needs the orientation bookkeeping of `ref_swap_node23`; the run-level
+    tie checks it on every accepted swap.) -/
+theorem mixed_interface_conforming_split_2d (m : Mesh P) (n0 n1 new : Nat) (p : P) (hw : Arity m.g) (hne : n0 ≠ n1)
+    (h : interfaceMatched2 m.g = true) (hok : (guardedSplit m n0 n1 new p).2.1 = .ok) :
+    interfaceMatched2 (guardedSplit m n0 n1 new p).2.2.g = true := by
+  unfold guardedSplit at hok ⊢
+  split_ifs at hok ⊢ with hg
+  · exact h
+  · have hguard : Guards.splitEdgeMixed m.g n0 n1 = true := by simpa using hg
+    have hside := guard_side hw hne hguard
+    unfold interfaceMatched2 at h ⊢
+    rw [List.all_eq_true] at h ⊢
+    unfold splitEdge at hok ⊢
+    dsimp only at hok ⊢
+    have ha : (addNode m new p).2.g = m.g := addNode_g m new p
+    split_ifs at hok ⊢ with hst
+    · exact absurd hok hst
+    · dsimp only at hok ⊢
+      rw [ha] at hok ⊢
+      rw [quaSides_eq_of (splitCells_groups m.g n0 n1 new)]
+      intro k hk
+      exact splitCells_matched2 (hside k hk) hok (h k hk)
+
+/-- the operations that only rewrite simplices and vertices: split, 2-D swap, vertex move -/
+def Simplicial : Op P → Prop
+  | .split n0 n1 _ _ => n0 ≠ n1
+  | .swap n0 n1 => n0 ≠ n1
+  | .move _ _ => True
+  | _ => False
+
+/-- the non-simplex groups after any one operation are those before (no hypothesis at all: no kernel writes them) -/
+theorem step_groups (m : Mesh P) (op : Op P) : SameFrozenGroups (step m op).g m.g := by
+  cases op with
+  | split n0 n1 new p =>
+    show SameFrozenGroups (guardedSplit m n0 n1 new p).2.2.g m.g
+    unfold guardedSplit
+    split_ifs
+    · exact SameFrozenGroups.refl _
+    · rcases splitEdge_g m n0 n1 new p with h | h <;> dsimp only <;> rw [h]
+      · exact SameFrozenGroups.refl _
+      · exact splitCells_groups m.g n0 n1 new
+  | collapse n0 n1 =>
+    show SameFrozenGroups (guardedCollapse m n0 n1).2.2.g m.g
+    unfold guardedCollapse
+    split_ifs
+    · exact SameFrozenGroups.refl _
+    · unfold collapseEdge
+      dsimp only
+      split_ifs
+      · exact collapseCells_groups m.g n0 n1
+      · have : (removeNode { m with g := (Collapse.collapseEdge m.g n0 n1).2 } n1).2.g =
+            (Collapse.collapseEdge m.g n0 n1).2 := by unfold removeNode; split_ifs <;> rfl
+        rw [this]
+        exact collapseCells_groups m.g n0 n1
+  | swap n0 n1 =>
+    show SameFrozenGroups (guardedSwap m n0 n1).2.2.g m.g
+    unfold guardedSwap
+    split_ifs
+    · exact SameFrozenGroups.refl _
+    · exact swapCells_groups m.g n0 n1
+  | move node p =>
+    show SameFrozenGroups (guardedMove m node p).2.g m.g
+    unfold guardedMove
+    split_ifs <;> exact ⟨rfl, rfl, rfl, rfl⟩
+  | cavity dt dr nt nr =>
+    show SameFrozenGroups (guardedCavity m dt dr nt nr).2.g m.g
+    unfold guardedCavity
+    split_ifs <;> exact ⟨rfl, rfl, rfl, rfl⟩
+
+/-- **`mixed_interface_history`**: along any history of guarded splits, 2-D swaps and vertex moves, every
+    triangular face of a pyramid / prism keeps a tet face or boundary tri on it.  (Collapses and cavity replacements
+    are excluded from this statement: see `mixed_interface_conforming_collapse_partial`.) -/
+theorem mixed_interface_history (m : Mesh P) (ops : List (Op P)) (hall : ∀ op ∈ ops, Simplicial op)
+    (hw : Arity m.g) (hp : FacesProper m.g) (hw3 : TriArity m.g) (h : interfaceMatched m.g = true) :
+    interfaceMatched (run m ops).g = true := by
+  induction ops generalizing m with
+  | nil => exact h
+  | cons op rest ih =>
+    have hg := step_groups m op
+    have hs := hall op List.mem_cons_self
+    have h1 : interfaceMatched (step m op).g = true ∧ TriArity (step m op).g := by
+      cases op with
+      | split n0 n1 new p =>
+        refine ⟨mixed_interface_conforming_split m n0 n1 new p hw hs h, ?_⟩
+        show TriArity (guardedSplit m n0 n1 new p).2.2.g
+        unfold guardedSplit
+        split_ifs
+        · exact hw3
+        · rcases splitEdge_g m n0 n1 new p with e | e <;> dsimp only <;> rw [e]
+          · exact hw3
+          · exact triArity_splitCells n0 n1 new hw3
+      | swap n0 n1 =>
+        refine ⟨mixed_interface_conforming_swap m n0 n1 hw hp hw3 hs h, ?_⟩
+        show TriArity (guardedSwap m n0 n1).2.2.g
+        unfold guardedSwap
+        split_ifs
+        · exact hw3
+        · exact triArity_swapCells n0 n1 hw3
+      | move node p =>
+        have : (step m (Op.move node p)).g = m.g := by
+          show (guardedMove m node p).2.g = m.g
+          unfold guardedMove; split_ifs <;> rfl
+        rw [this]
+        exact ⟨h, hw3⟩
+      | collapse n0 n1 => exact absurd hs id
+      | cavity dt dr nt nr => exact absurd hs id
+    exact ih (step m op) (fun o ho => hall o (List.mem_cons_of_mem _ ho)) (arity_of_same hg hw)
+      (facesProper_of_same hg hp) h1.2 h1.1
+
+/-! ## non-vacuity -/
+
+/-- hex core + pyramid transition + tets, NO prism: hexahedron 0..7, a pyramid on its top face (base 4 5 6 7, apex 8;
+    refine's order: base cycle n0 n3 n4 n1, apex n2), one tet on each triangular face of the pyramid, two tets around
+    the free edge (9,10) -/
+def hexPyrTet : Mesh Nat :=
+  { g := { hex := [⟨[0, 1, 2, 3, 4, 5, 6, 7], 0⟩], pyr := [⟨[4, 7, 8, 5, 6], 0⟩],
+           tet := [⟨[4, 7, 8, 9], 0⟩, ⟨[7, 6, 8, 10], 0⟩, ⟨[8, 6, 5, 11], 0⟩, ⟨[4, 8, 5, 12], 0⟩, ⟨[7, 8, 9, 10], 0⟩],
+           qua := [⟨[0, 3, 2, 1], 1⟩] },
+    pts := (List.range 13).map fun n => (n, 100 + n) }
+
+/-- prism layer + tets, no pyramid: prism 0 1 2 / 3 4 5, a tet on its top triangle, the bottom triangle on the
+    boundary -/
+def prismTet : Mesh Nat :=
+  { g := { pri := [⟨[0, 1, 2, 3, 4, 5], 0⟩], tet := [⟨[3, 5, 4, 6], 0⟩, ⟨[3, 4, 6, 7], 0⟩], tri := [⟨[0, 2, 1], 1⟩] },
+    pts := (List.range 8).map fun n => (n, 100 + n) }
+
+theorem hexPyrTet_arity : Arity hexPyrTet.g := by
+  constructor <;> intro c hc <;> simp [hexPyrTet] at hc <;> subst hc <;> rfl
+
+theorem prismTet_arity : Arity prismTet.g := by
+  constructor <;> intro c hc <;> simp [prismTet] at hc <;> subst hc <;> rfl
+
+/-- hypotheses of the frame and interface theorems hold on the hex + pyramid + tet mesh (no prism) -/
+example : FrozenValid hexPyrTet ∧ interfaceMatched hexPyrTet.g = true ∧ (hexPyrTet.g.pyr ≠ [] ∨ hexPyrTet.g.pri ≠ []) := by
+  refine ⟨?_, by decide, Or.inl (by decide)⟩
+  intro n hn
+  have : n ∈ hexPyrTet.frozenNodes → hexPyrTet.valid n = true := by
+    revert n; decide
+  exact this hn
+
+/-- the guards on it: the apex-to-base edge (4,8) of the pyramid may not be split although the mesh has no prism, the
+    tet edge (9,10) may; vertex 8 (the apex) may not be removed by a collapse nor moved, vertex 9 may -/
+example : splitEdgeMixed hexPyrTet.g 4 8 = false ∧ splitEdgeMixed hexPyrTet.g 9 10 = true ∧
+    splitEdgeMixed hexPyrTet.g 4 5 = false ∧ collapseEdgeMixed hexPyrTet.g 9 8 = false ∧
+    collapseEdgeMixed hexPyrTet.g 8 9 = true ∧ smoothTetFrozen hexPyrTet.g 8 = true ∧
+    smoothTetFrozen hexPyrTet.g 9 = false := by decide
+
+/-- a history with an accepted split, an accepted collapse, an accepted move and refused ones: the frozen part is
+    the initial one (computed), as `mixed_frame_gated` says -/
+example : (run hexPyrTet [.split 9 10 13 7, .split 4 8 14 7, .move 8 0, .move 13 5, .collapse 10 13, .collapse 9 8,
+    .cavity [⟨[7, 8, 9, 10], 0⟩] [] [] []]).frozen = hexPyrTet.frozen ∧
+    (guardedSplit hexPyrTet 9 10 13 7).1 = true ∧ (guardedSplit hexPyrTet 4 8 14 7).1 = false ∧
+    (guardedMove hexPyrTet 8 0).1 = false ∧ (guardedCollapse hexPyrTet 9 8).1 = false := by decide
+
+/-- ... and the interface stays matched after the accepted split of (9,10) (the tet [7,8,9,10] on the edge is cut) -/
+example : interfaceMatched (guardedSplit hexPyrTet 9 10 13 7).2.2.g = true ∧
+    (guardedSplit hexPyrTet 9 10 13 7).2.1 = .ok ∧ (guardedSplit hexPyrTet 9 10 13 7).2.2.g.tet.length = 6 := by decide
+
+/-- what the guard prevents: the unguarded split of the pyramid edge (4,8) leaves the pyramid faces (4,7,8), (4,8,5)
+    without a tet (hanging node 13) -/
+example : interfaceMatched (splitEdge hexPyrTet 4 8 13 7).2.g = false := by decide
+
+/-- prism + tets -/
+example : FrozenValid prismTet ∧ interfaceMatched prismTet.g = true ∧ FacesProper prismTet.g ∧ TriArity prismTet.g := by
+  refine ⟨?_, by decide, facesProper_of prismTet_arity ?_ ?_, ?_⟩
+  · intro n hn
+    have : n ∈ prismTet.frozenNodes → prismTet.valid n = true := by revert n; decide
+    exact this hn
+  · intro c hc; simp [prismTet] at hc
+  · intro c hc; simp [prismTet] at hc; subst hc; decide
+  · intro c hc; simp [prismTet] at hc; subst hc; rfl
+
+example : splitEdgeMixed prismTet.g 3 4 = false ∧ splitEdgeMixed prismTet.g 0 3 = false ∧
+    splitEdgeMixed prismTet.g 3 6 = true ∧ splitEdgeMixed prismTet.g 6 7 = true ∧
+    nodeTouchesMixed prismTet.g 3 = true ∧ nodeTouchesMixed prismTet.g 6 = false ∧ cavityFormGate prismTet.g = true ∧
+    interfaceMatched (guardedSplit prismTet 3 6 8 0).2.2.g = true ∧
+    (run prismTet [.split 3 6 8 0, .move 6 1, .move 3 1, .split 3 4 9 0]).frozen = prismTet.frozen := by decide
+
+/-- an ungated grid (hexahedron + quadrilateral, no pyramid / prism) where `CavitySafe` matters: removing the only tet
+    of vertex 4 by a cavity drops vertex 4 of the hexahedron -- the side condition is not vacuous, and the C's
+    `ref_cavity_replace` does not test it by itself -/
+example :
+    let m : Mesh Nat := { g := { hex := [⟨[0, 1, 2, 3, 4, 5, 6, 7], 0⟩], tet := [⟨[4, 8, 9, 10], 0⟩, ⟨[8, 9, 10, 11], 0⟩] },
+                          pts := (List.range 12).map fun n => (n, n) }
+    cavityFormGate m.g = false ∧ (guardedCavity m [⟨[4, 8, 9, 10], 0⟩] [] [] []).2.frozen ≠ m.frozen ∧
+      (guardedCavity m [⟨[8, 9, 10, 11], 0⟩] [] [] []).2.frozen = m.frozen := by decide
+
+/-- 2-D: a quadrilateral 0 1 2 3 with a triangle on its top side (3,2) and boundary edges on the others; the split of
+    the quad side (2,3) is refused, the split of the free triangle side (2,4) keeps the quad sides matched -/
+def quadTri : Mesh Nat :=
+  { g := { qua := [⟨[0, 1, 2, 3], 1⟩], tri := [⟨[3, 2, 4], 1⟩],
+           edg := [⟨[0, 1], 1⟩, ⟨[1, 2], 2⟩, ⟨[3, 0], 4⟩, ⟨[2, 4], 2⟩, ⟨[4, 3], 4⟩] },
+    pts := (List.range 5).map fun n => (n, n) }
+
+example : interfaceMatched2 quadTri.g = true ∧ splitEdgeMixed quadTri.g 2 3 = false ∧
+    swapEdgeMixed quadTri.g 3 2 = false ∧ (guardedSplit quadTri 2 4 5 0).2.1 = .ok ∧
+    interfaceMatched2 (guardedSplit quadTri 2 4 5 0).2.2.g = true ∧
+    interfaceMatched2 (splitEdge quadTri 2 3 5 0).2.g = false := by decide
+
 end Refine.Props.C02Mixed
